@@ -78,7 +78,8 @@ OER_ONLY = [
         'e [PRIVATE 200] BOOLEAN }')),
 ]
 # the C09 list is written in ASN.1 only; everything in it is inside the OER subset as well
-TEMPLATES = [dict(t, quick=t['id'] in ('basic', 'octets', 'seq-opt', 'choice', 'bits', 'bits-33-56')) for t in base.TEMPLATES] + OER_ONLY
+TEMPLATES = [dict(t, quick=t['id'] in ('basic', 'octets', 'seq-opt', 'choice', 'bits', 'bits-33-56')) for t in base.HAND] + \
+    OER_ONLY + base.generated_templates('oer')
 
 REJECT = [t for t in base.REJECT if t['id'] not in ('real', 'seq-additions')] + [
     dict(id='real-unconstrained', text=M('A ::= SEQUENCE { a REAL, b BOOLEAN }')),
